@@ -57,6 +57,20 @@ class World:
         self.classes[cls.name] = cls
         self.ext = None
         self._note_module(getattr(cls, "module", None))
+        # base classes defined in the package come along (a common private base two classes were given, a mixin): the scenario
+        # names the class it wants, not how its definition is split over bases
+        try:
+            from . import home
+            r = home.repo()
+            for b in cls.base_names():
+                bn = (b or "").split(".")[-1]
+                if r is None or not b or bn in self.classes or bn in getattr(self, "foreign", {}):
+                    continue
+                kind, obj = r.resolve_name(cls.module, b)
+                if kind == "class":
+                    self.add_class(obj)
+        except Exception:
+            pass
         return self
 
     def methods_of(self, cls, _seen=None):
@@ -259,6 +273,33 @@ class World:
             return self.call_method(v, attr, [], {})
         if m is not None:
             return PyFunc(lambda a, k: self.call_method(v, attr, a, k), f"{v.cls.name}.{attr}")
+        try:
+            names = self.mro_names(v.cls)
+        except Undecided:
+            names = [v.cls.name]
+        for cn in names:  # a class attribute read through the instance (own class first, then its bases)
+            st_ = self.class_state.get(cn) or {}
+            if attr in st_:
+                return st_[attr]
+        # an object built in ANOTHER world (a real parameter set handed into this scenario): literal class attributes of its
+        # class and of the package classes it derives from
+        from . import home
+        chain, seen_ = [v.cls], set()
+        while chain:
+            c_ = chain.pop(0)
+            if id(c_) in seen_:
+                continue
+            seen_.add(id(c_))
+            node_ = (getattr(c_, "attrs", None) or {}).get(attr)
+            if isinstance(node_, ast.Constant):
+                val_ = node_.value
+                return val_ if isinstance(val_, (str, bool)) or val_ is None else Poly.const(val_)
+            r_ = home.repo()
+            for b in c_.base_names():
+                if r_ is not None and b:
+                    kind, obj = r_.resolve_name(c_.module, b)
+                    if kind == "class":
+                        chain.append(obj)
         raise NotHandled()
 
     def get_item(self, v, key):
